@@ -456,6 +456,11 @@ class Builder:
             s = self.d(st.integers(0, 2))
             meth["ss"] = s in (0, 2)
             meth["cs"] = s in (1, 2)
+            if meth["output"] == ".google.protobuf.Empty" and not self.p.get("allow_streaming_void"):
+                # known findings F-streaming-void / F-async-cs-void: with an Empty response type the client drops
+                # the response stream (returns None) / never awaits the client-streaming call
+                self.excluded.append("F-streaming-void" if meth["ss"] else "F-async-cs-void")
+                meth["output"] = ".google.protobuf.Struct"
         # annotations that need a local request message
         if req is not None:
             if self.coin("p_http"):
